@@ -148,6 +148,7 @@ func c04Layouts() []c04Layout {
 		{"complement-join", []Feat{{Name: "orfRJ", Segs: []Seg{{10, 12}, {16, 18}}, Reverse: true}}, both},
 		{"join-of-complements", []Feat{{Name: "orfRJ", Segs: []Seg{{10, 12}, {16, 18}}, Reverse: true, GbStyle: 1}}, []string{"gb"}},
 		{"overlapping-named", []Feat{{Name: "orfA", Segs: []Seg{{1, 9}}}, {Name: "orfB", Segs: []Seg{{4, 9}}}}, both},
+		{"join-not-ascending", []Feat{{Name: "orfO", Segs: []Seg{{16, 18}, {7, 9}}}}, both},
 		{"forward-and-reverse", []Feat{{Name: "orfA", Segs: []Seg{{1, 9}}}, {Name: "orfR", Segs: []Seg{{10, 18}}, Reverse: true}}, both},
 		{"named-in-unnamed-cds", []Feat{{Name: "", Segs: []Seg{{1, 9}}}, {Name: "pepK", Segs: []Seg{{4, 6}}, GffType: "mature_protein_region_of_CDS"}}, []string{"gff"}},
 		{"unnamed-cds-only", []Feat{{Name: "", Segs: []Seg{{1, 9}}}}, []string{"gff"}},
@@ -223,6 +224,74 @@ func c04LayoutJob(li int, format string, appendSNP bool, tier string, res *engin
 	}
 }
 
+// c04SamJob: the layouts' substitution/indel queries as single-record SAM alignments through
+// `sam variants` (consecutive queries carry equally long insertions at different sites).
+func c04SamJob(li int, format string, res *engine.JobResult) {
+	l := c04Layouts()[li]
+	n := len(c04Genome)
+	type pr struct{ ref, q string }
+	var pairs []pr
+	for L := 1; L <= 2; L++ { // equal insertion lengths consecutively: the alignment width stays the same
+		for p := 0; p <= n; p += 2 {
+			qs := c04Queries(c04Genome, false)
+			q := qs[(p*7+L)%len(qs)]
+			pairs = append(pairs, pr{c04Genome[:p] + strings.Repeat("-", L) + c04Genome[p:], q[:p] + strings.Repeat("G", L) + q[p:]})
+		}
+	}
+	for p := 1; p+2 < n; p += 3 {
+		qs := c04Queries(c04Genome, false)
+		q := qs[(p*11)%len(qs)]
+		pairs = append(pairs, pr{c04Genome, q[:p] + "--" + q[p+2:]})
+	}
+	var recs []SamRec
+	for i, x := range pairs {
+		var cols []alnCol
+		var seq []byte
+		for k := 0; k < len(x.ref); k++ {
+			switch {
+			case x.ref[k] == '-':
+				cols = append(cols, 'I')
+				seq = append(seq, x.q[k])
+			case x.q[k] == '-':
+				cols = append(cols, 'D')
+			default:
+				cols = append(cols, 'M')
+				c := x.q[k]
+				if c == 'R' {
+					c = 'R'
+				}
+				seq = append(seq, c)
+			}
+		}
+		recs = append(recs, SamRec{Name: fmt.Sprintf("q%d", i), Pos: 1, Cigar: opsOf(cols), Seq: string(seq)})
+	}
+	for _, ap := range []bool{true, false} {
+		cs := c04Case{Genome: c04Genome, Feats: l.Feats, Format: format, AppendSNP: ap}
+		call := Call{Cmd: "samvariants", Sam: samText(n, recs), Ref: fastaOf("ref", c04Genome), Anno: cs.anno(), AnnoSuffix: format, AppendSNP: ap, Threads: 1}
+		o := call.Canon()
+		res.Evals += len(pairs)
+		res.States += len(pairs)
+		if o.Outcome != "returned" || o.HasErr {
+			res.Violate("variants:sam-"+o.Outcome+"-on-valid-input", fmt.Sprintf("sam variants fails on layout %s (%s): %s %s", l.Name, format, o.String(), o.Detail), cs)
+			continue
+		}
+		rows, order, ok := parseVariantRows(o.Out)
+		if !ok || len(order) != len(pairs) {
+			res.Violate("variants:rows", fmt.Sprintf("sam variants: expected %d rows, got %q", len(pairs), o.Out), cs)
+			continue
+		}
+		for i, x := range pairs {
+			// '-' in a SAM query cannot occur; the model row uses the pair as aligned
+			m := modelVariants(l.Feats, x.ref, x.q)
+			if cause, msg := judgeVariants(m, rows[fmt.Sprintf("q%d", i)], ap, l.Feats); cause != "" {
+				cc := cs
+				cc.RefRow, cc.QRows, cc.Via = x.ref, []string{x.q}, "sam"
+				res.Violate(cause, fmt.Sprintf("sam variants, %s annotation, features %s, pair %q / %q (query %d of the file) --append-snps=%v: %s", format, describeFeats(l.Feats), x.ref, x.q, i, ap, msg), cc)
+			}
+		}
+	}
+}
+
 func c04CLI(res *engine.JobResult) {
 	for li, l := range c04Layouts() {
 		for _, f := range l.Formats {
@@ -255,7 +324,7 @@ func init() {
 		ID:    "C04",
 		Level: "model_checking",
 		Rule: "bounded-exhaustive enumeration against a set-disjointness + independent genetic-code model. (a) codon level: a one-codon+stop gene on the forward and on the reverse strand, reference codon in all 64, query codon in all 15^3 IUPAC codons (thorough: all 17^3 incl. '-' and '?'), GenBank and GFF3; " +
-			"(b) layout level: an 18-base genome with 11 annotation layouts (forward, reverse, join, complement(join), join(complement,...), overlapping named, forward+reverse, named peptide inside an unnamed GFF CDS, unnamed CDS only / without ID, no features) in GenBank and/or GFF3 form x every single substitution and every pair of substitutions over ACGTRN- (5 616 queries) + every 1-2-base insertion or deletion at every site combined with every single substitution, --append-snps on/off. " +
+			"(b) layout level: an 18-base genome with 12 annotation layouts (forward, reverse, join, a join whose segments are not in ascending order (origin-spanning), complement(join), join(complement,...), overlapping named, forward+reverse, named peptide inside an unnamed GFF CDS, unnamed CDS only / without ID, no features) in GenBank and/or GFF3 form x every single substitution and every pair of substitutions over ACGTRN- (5 616 queries) + every 1-2-base insertion or deletion at every site combined with every single substitution, --append-snps on/off; the indel/substitution queries of every layout also as single-record SAM alignments through `sam variants` (consecutive records with equally long insertions at different sites). " +
 			"A case is one (annotation, reference row, query row, option) tuple; non-trivial = at least one certainly-different position; each generated once",
 		Assumptions: []string{
 			"oracle: a position must be mentioned iff its base sets are disjoint ('-','?','N' = any base); an aa record is required iff every A/C/G/T expansion of the query codon translates to the same residue != the reference residue; codons containing '-' or '?' are untranslatable (never a call)",
@@ -272,6 +341,7 @@ func init() {
 					for _, ap := range []int{1, 0} {
 						jobs = append(jobs, fmt.Sprintf("layout:%d:%s:%d", li, f, ap))
 					}
+					jobs = append(jobs, fmt.Sprintf("sam:%d:%s", li, f))
 				}
 			}
 			jobs = append(jobs, "cli")
@@ -313,6 +383,11 @@ func init() {
 				var li int
 				fmt.Sscan(p[1], &li)
 				c04LayoutJob(li, p[2], p[3] == "1", tier, res)
+			case strings.HasPrefix(job, "sam:"):
+				p := strings.Split(job, ":")
+				var li int
+				fmt.Sscan(p[1], &li)
+				c04SamJob(li, p[2], res)
 			case job == "cli":
 				c04CLI(res)
 			}
